@@ -55,7 +55,11 @@ def qr_r_jvp(primals, tangents):
 
 
 def vector_norm(arr, /, *, order=None):
-    return jnp.linalg.norm(arr, ord=order)
+    # The derivative of a norm at the zero vector is 0/0 = NaN. Differentiate a regular point
+    # instead and return a zero derivative there (e.g. residuals that vanish identically).
+    is_zero = jnp.all(arr == 0)
+    arr_safe = jnp.where(is_zero, jnp.ones_like(arr), arr)
+    return jnp.where(is_zero, 0.0, jnp.linalg.norm(arr_safe, ord=order))
 
 
 def matrix_norm(arr, /, *, order=None):
